@@ -440,13 +440,12 @@ def parse_single_name_into_parts(name, strict=True):
             # whose last word starts with lowercase that is not the whole
             # string. Last is the rest. NB., this means last cannot be empty.
 
-            # At least one lowercase letter.
-            if 0 in cases:
-                # Index from end of list of first and last lowercase word.
+            # At least one lowercase word other than the final one
+            # (which is always part of last).
+            if 0 in cases[:-1]:
+                # Index from end of list of first and last such lowercase word.
                 firstl = cases.index(0) - len(cases)
-                lastl = -cases[::-1].index(0) - 1
-                if lastl == -1:
-                    lastl -= 1  # Cannot consume the rest of the string.
+                lastl = -cases[-2::-1].index(0) - 2
 
                 # Pull the parts out.
                 parts.first = p0[:firstl]
